@@ -4,18 +4,34 @@ HOOKS = dict(
     guard="cfg(kani) / cfg(folo_verif)",
     enable="Kani sets cfg(kani) itself (cargo kani); native replays build with RUSTFLAGS='--cfg folo_verif' and FOLO_VERIF_DIR=/verif",
     baseline_off_cmd="cd /repo && cargo nextest run --workspace --no-fail-fast --tool-config-file pb:/w/lib/nextest.toml --profile pb --test-threads 8 --offline || cargo test --workspace --no-fail-fast --offline",
-    source_commits=["c13769c", "f72257d", "bd85f32"],
+    source_commits=["c13769c", "f72257d", "bd85f32", "a238489", "f66556c"],
     add_only=True,
 )
 
 ENGINES = [
-    dict(name="kani", path="lib/kani_engine.py", serves_properties=["C01", "C02", "C07"],
+    dict(name="kani", path="lib/kani_engine.py", serves_properties=["C01", "C02", "C07", "C16", "C18"],
          kind_free_text="Kani 0.68 / CBMC 6.11 / CaDiCaL bounded model checking of #[kani::proof] harnesses over the real crates "
                         "(path dependency or in-crate include hook); symbolic inputs and symbolic callback programs; "
                         "counterexamples replayed natively (dev, release, Miri) before a violation is reported"),
 ]
 
 CLAIMED = {
+    "C16": dict(
+        engine="kani",
+        technique="bounded model checking (Kani/CBMC SAT) of the real observation-bag, publication and merge code from arbitrary prior states",
+        design_ref="DESIGN.md §4 C16",
+        text="ObservationBag/ObservationBagSync::insert decided for EVERY i64 magnitude and batch size from an ARBITRARY prior bag state: count/sum advance exactly (wrapping as documented), the observation lands in the first bucket with bound >= m or in none, observed at an arbitrary bucket of a 66-bucket bag (dirty bit min(index,63), buckets 62..65) and of bags with 3/1/0 SYMBOLIC bounds; "
+             "copy_from and MetricsPusher::push (incl. the skip heuristic) from an arbitrary state satisfying the publication invariant: published = local afterwards; merge_from / snapshot merge: element-wise sums. One inductive step per function; single thread. Bounded, not a proof.",
+        note="Trusts Kani/CBMC/CaDiCaL; registries, thread teardown and Report::collect (thread-locals, hash maps) and concurrency are outside the claim.",
+    ),
+    "C18": dict(
+        engine="kani",
+        technique="bounded model checking (Kani/CBMC SAT) of the real tracking allocator and span code over a recording inner allocator",
+        design_ref="DESIGN.md §4 C18",
+        text="Allocator::{alloc,alloc_zeroed,realloc,dealloc}: for a call of solver-chosen kind with ANY size < 2^40, alignment 2^0..2^7, pointer and new size, exactly one call is forwarded with identical arguments and the wrapped allocator's result is returned unchanged; thread counters and process totals advance by exactly (requested size | new size | nothing, 1 | 0). "
+             "ThreadSpan/ProcessSpan: nested spans over solver-chosen calls report exactly the calls inside them; consecutive spans and OperationMetrics::merge add up. Single thread. Bounded, not a proof.",
+        note="Trusts Kani/CBMC/CaDiCaL; multi-thread totals, Session/Report and rendering are outside the claim.",
+    ),
     "C01": dict(
         engine="kani",
         technique="bounded model checking (Kani/CBMC SAT) of the real layout, vacancy-index, slab and raw-pool code: arbitrary-state inductive steps and scenario shapes with solver-chosen operations",
@@ -51,7 +67,7 @@ CLAIMED = {
 PENDING = "check under construction in this build phase (see DESIGN.md); not claimed until its check is committed"
 NOT_APPLICABLE = {
     "C05": PENDING, "C06": PENDING, "C08": PENDING, "C11": PENDING,
-    "C16": PENDING, "C18": PENDING, "C19": PENDING, "C20": PENDING,
+    "C19": PENDING, "C20": PENDING,
     "C03": "wrapper pools (Arc<Mutex<..>>, Rc<RefCell<..>> + type-erased removers) exhaust 20-28 GB in CBMC even for {insert; drop handle} at capacity 2 (DESIGN.md P22); the Send/Sync clause is a trait-solver question, not an SMT query over the code",
     "C04": "the panic half needs unwinding (absent in Kani; catch_unwind even ICEs it) and the re-entrancy half needs the wrapper-pool shapes that do not fit (P22)",
     "C09": "take/take_all run through foldhash maps, pdqsort, VecDeque, rejection-sampling RNG loops and Arc-carrying processor records; a 4-processor/2-region query used 30 GB for 20 min without a verdict (P12)",
